@@ -57,12 +57,14 @@ class Layout:
         return self.path(d if d else from_dir, i)
 
     def body(self, d, i):
-        strict, lazy = [], []
+        strict, lazy, eager = [], [], []
         for (j, mode, kind, sp) in self.edges[i]:
             e = "%s %s" % (kind, json.dumps(self.spelled(d, j, sp)))
-            (strict if mode == "strict" else lazy).append(e)
-        return ("std.trace(%s, {id: %s, deps: [%s], lazy:: [%s]})"
-                % (json.dumps("F%d@%s" % (i, d)), json.dumps("f%d@%s" % (i, d)), ", ".join(strict), ", ".join(lazy)))
+            {"strict": strict, "lazy": lazy, "eager": eager}[mode].append(e)
+        # eager imports are forced while the importing file itself is being evaluated
+        pre = "".join("assert (%s) != null; " % e for e in eager)
+        return ("%sstd.trace(%s, {id: %s, deps: [%s], lazy:: [%s]})"
+                % (pre, json.dumps("F%d@%s" % (i, d)), json.dumps("f%d@%s" % (i, d)), ", ".join(strict), ", ".join(lazy)))
 
     def write(self):
         for d in DIRS:
@@ -82,16 +84,30 @@ class Layout:
         with open(os.path.join(self.root, "main", "f0b.jsonnet"), "w") as f:
             f.write(self.body("main", 0))
 
-    def expected(self, d, i, stack=()):
-        """-> value or raises KeyError('missing') / RecursionError-like marker 'cycle'"""
+    def force_file(self, d, i, stack=()):
+        """what evaluating file (d, i) itself needs: its eager imports (recursively); strict and
+        lazy edges sit in fields that evaluation of the file does not touch"""
         if (d, i) in stack:
             raise Cycle()
+        for (j, mode, kind, sp) in self.edges[i]:
+            if mode != "eager":
+                continue
+            tgt = self.resolve(d, j)
+            if tgt is None:
+                raise Missing()
+            if kind == "import":
+                self.force_file(tgt, j, stack + ((d, i),))
+
+    def expected(self, d, i, stack=()):
+        """manifested value of file (d, i); raises Cycle / Missing"""
+        if (d, i) in stack:
+            raise Cycle()
+        self.force_file(d, i, stack)
         deps = []
         for (j, mode, kind, sp) in self.edges[i]:
             if mode != "strict":
                 continue
-            # a symlink / updown / plain spelling is searched like the plain name
-            tgt = self.resolve(d, j) if sp != "absolute" else (self.resolve(d, j) or None)
+            tgt = self.resolve(d, j)
             if tgt is None:
                 raise Missing()
             if kind == "import":
@@ -131,6 +147,20 @@ def graphs(tier, rng):
                     continue
                 kind = "import" if (a, b) in ((1, 0), (2, 0), (0, 0)) or r.random() < 0.7 else r.choice(["importstr", "importbin"])
                 edges[a].append((b, st, kind, r.choice(SPELLINGS)))
+            yield (3, where, edges)
+    # imports forced during the evaluation of the importing file (eager), chains and cycles
+    eager_shapes = [
+        [[(1, "eager")], [], []], [[(1, "eager")], [(2, "eager")], []], [[(1, "strict")], [(2, "eager")], []],
+        [[(1, "eager"), (2, "strict")], [(2, "eager")], []], [[(1, "eager")], [(0, "eager")], []],
+        [[(1, "eager")], [(2, "eager")], [(1, "lazy")]], [[(1, "strict"), (2, "eager")], [], [(1, "eager")]],
+        [[(1, "eager")], [(2, "strict")], [(0, "lazy")]], [[(2, "eager"), (1, "eager")], [(2, "eager")], []],
+    ]
+    for si, shape in enumerate(eager_shapes):
+        for rep in range(3 if tier == "quick" else 20):
+            r = runner.rng_for(1, "c07-eager", si, rep)
+            where = [["main"], r.choice(wheres[:7]), r.choice(wheres[:7])]
+            edges = [[(b, m, "import" if m == "eager" or r.random() < 0.7 else r.choice(["importstr", "importbin"]), r.choice(SPELLINGS))
+                      for (b, m) in row] for row in shape]
             yield (3, where, edges)
 
 
